@@ -34,7 +34,7 @@ MANIFEST_INFO = {
     "engine": "D",
     "design_ref": "DESIGN.md section 5, C14",
     "technique": "stateless deviation-bounded DFS over stage behaviours of generated Deferred-returning TestCases run by the real AsynchronousDeferredRunTest on the real SelectReactor under a virtual clock; timeout placement, tie order and interrupt instant enumerated; async lifecycle timeline model",
-    "level_text": "Every program whose setUp/test/tearDown/0-2 cleanups each pick one of 13 behaviours (return, raise error/failure/skip, Deferred already fired / firing or failing after 1 or 2 time units / never firing, leaving a delayed call, logging an error with or without flushing it, dropping a failed Deferred) with at most 3 (quick) / 4 (thorough) deviating stages, for 6 timeouts placed before/at/after the stage boundaries, with <=1 interrupt at any reactor instant, both runner variants and all four logging-option combinations, is executed; bracket, success-iff-clean, error on timeout/interrupt (+stop), stage sequencing by virtual timestamps, reactor cleanliness and log-observer restoration are checked on every execution.",
+    "level_text": "Every program whose setUp/test/tearDown/0-2 cleanups each pick one of 15 behaviours (return, raise error/failure/skip, Deferred already fired / firing or failing after 1 or 2 time units / never firing, leaving a delayed call, logging an error with or without flushing it, dropping a failed Deferred) with at most 3 (quick) / 4 (thorough) deviating stages, for 6 timeouts placed before/at/after the stage boundaries, with <=1 interrupt at any reactor instant, both runner variants and all four logging-option combinations, is executed; bracket, success-iff-clean, error on timeout/interrupt (+stop), stage sequencing by virtual timestamps, reactor cleanliness and log-observer restoration are checked on every execution.",
     "level_note": "Virtual clock on the real SelectReactor; garbage collection of a dropped failed Deferred relies on CPython reference counting (deterministic); when the chain completes at exactly the timeout instant either verdict is accepted.",
 }
 
@@ -55,12 +55,13 @@ KINDS = (
     "failed",
     "never",
     "junk",
+    "junk_chain",
     "logerr",
     "logerr_flushed",
     "drop_failed",
 )
 DELAY = {"fire1": 1.0, "fire2": 2.0, "fail1": 1.0}
-DIRTY_RETURN = ("junk", "logerr", "drop_failed")
+DIRTY_RETURN = ("junk", "junk_chain", "logerr", "drop_failed")
 FAILING = ("raise_error", "raise_failure", "raise_skip", "fail1", "failed")
 TIMEOUTS = (0.5, 1.0, 1.5, 2.0, 3.5, 100.0)
 
@@ -103,6 +104,10 @@ def behave(case, ctx, stage):
         return defer.Deferred()
     if k == "junk":
         ctx.junk_calls.append(r.callLater(50.0, lambda: None))
+        return None
+    if k == "junk_chain":
+        # a call that is due at once and, when it fires, schedules later work
+        r.callLater(0, lambda: ctx.junk_calls.append(r.callLater(30.0, lambda: None)))
         return None
     if k == "logerr":
         tlog.err(StageError(stage))
@@ -183,7 +188,7 @@ def model(ncleanups, decisions, timeout):
             pending_logged += 1
         elif k == "logerr_flushed":
             pending_logged = 0  # flush_logged_errors(StageError) also flushes earlier ones
-        if k in FAILING or k in ("junk", "drop_failed"):
+        if k in FAILING or k in ("junk", "junk_chain", "drop_failed"):
             clean = False
         if st == "setUp" and k in FAILING:
             stages = [s for s in stages if s not in ("test", "tearDown")]
@@ -312,24 +317,41 @@ def execute(config, chooser):
 
 def configs(tier):
     out = []
+    if tier == "quick":
+        for timeout in TIMEOUTS:
+            for nc in (0, 1, 2):
+                out.append(("plain", True, True, timeout, nc, nc == 1))
+        for timeout in (1.0, 3.5, 100.0):
+            out.append(("broken", True, True, timeout, 1, True))
+        out.append(("broken", True, True, 100.0, 2, False))
+        for suppress, store in ((True, False), (False, True), (False, False)):
+            for variant in ("plain", "broken"):
+                for timeout in (1.5, 100.0):
+                    out.append((variant, suppress, store, timeout, 1, True))
+        return out
     for variant in ("plain", "broken"):
         for suppress, store in itertools.product((True, False), repeat=2):
             for timeout in TIMEOUTS:
                 for nc in (0, 1, 2):
-                    if tier == "quick":
-                        # quick: full option matrix only for 1 cleanup, default options otherwise
-                        if nc != 1 and not (suppress and store and variant == "plain"):
-                            continue
-                    foreign = (nc == 1)
-                    out.append((variant, suppress, store, timeout, nc, foreign))
+                    out.append((variant, suppress, store, timeout, nc, nc == 1))
     return out
 
 
 def shards(tier):
-    return configs(tier)
+    from vt.explore.chooser import first_level_prefixes
+
+    out = []
+    bound = 3 if tier == "quick" else 4
+    for config in configs(tier):
+        out.append((config, None))
+        for p in first_level_prefixes(lambda ch: execute(config, ch), bound):
+            out.append((config, tuple(p)))
+    vreactor.discard_reactor()
+    return out
 
 
-def run_shard(config, tier, seed):
+def run_shard(shard, tier, seed):
+    config, prefix = shard
     res = ShardResult()
     bound = 3 if tier == "quick" else 4
 
@@ -343,9 +365,9 @@ def run_shard(config, tier, seed):
         for clause, msg in problems:
             res.violation("C14/%s" % clause, "%s [config %r decisions %r]" % (msg, config, ctx.decisions), {"config": list(config), "choices": ch.choices})
 
-    stats = explore(lambda ch: _W(execute(config, ch)), check, bound, order_seed=seed)
-    res.states += stats.choice_points + 1
-    res.transitions += stats.edges
+    stats = explore(lambda ch: _W(execute(config, ch)), check, bound, prefix=prefix or (), root_only=prefix is None, order_seed=seed)
+    res.states += stats.choice_points + (1 if prefix is None else 0)
+    res.transitions += stats.edges + (0 if prefix is None else 1)
     res.traces_validated += stats.executions
     res.notes["deviation_bound"] = bound
     vreactor.discard_reactor()
